@@ -307,4 +307,53 @@ decreasing_by all_goals exact Reader.read_size h
 /-- `Command::read_from(source, handle_error)` -/
 def readFrom (r : Reader) : ReadFrom := readFromLoop r 0
 
+theorem readFromLoop_size {r r' : Reader} {n n' : Nat} {c : Command}
+    (h : readFromLoop r n = .command c n' r') : r'.size < r.size := by
+  induction hs : r.size using Nat.strongRecOn generalizing r n with
+  | _ k ih =>
+    subst hs
+    rw [readFromLoop] at h
+    split at h
+    · simp at h
+    · simp at h
+    · rename_i l r1 hread
+      have hlt := Reader.read_size hread
+      simp only at h
+      split at h
+      · have := ih _ hlt h rfl
+        omega
+      · split at h
+        · simp at h; rw [← h.2.2]; exact hlt
+        · have := ih _ hlt h rfl
+          omega
+        · simp at h
+        · simp at h
+
+/-- How a debugging session's command input ends. -/
+inductive Ending where
+  | eof
+  | exit (code : Nat)
+  | panic (site : String)
+  deriving DecidableEq, Repr
+
+/-- Everything the command reader yields until the end of input: each event is a command
+(`some c`) or one call of `handle_error` (`none`), in order. -/
+structure Session where
+  events : List (Option Command)
+  ending : Ending
+  deriving DecidableEq, Repr
+
+/-- Loop `Command::read_from` until it returns `None` (what the debugger does, ignoring that
+`quit` / `exit` stop it earlier; `verif_read_all` in the hooks). -/
+def session (r : Reader) : Session :=
+  match h : readFrom r with
+  | .command c n r' =>
+    let s := session r'
+    { events := List.replicate n none ++ some c :: s.events, ending := s.ending }
+  | .eof n _ => { events := List.replicate n none, ending := .eof }
+  | .exit code n => { events := List.replicate n none, ending := .exit code }
+  | .panic site n => { events := List.replicate n none, ending := .panic site }
+termination_by r.size
+decreasing_by exact readFromLoop_size h
+
 end Lace.Cmd
